@@ -115,7 +115,7 @@ def check(run, replay, prop):
             if not os.path.exists(out):
                 raise vlib.Infra("no schedules exported")
             return out
-        n = 1500 if thorough else 300
+        n = 4000 if thorough else 900
         scheds.append((gen("a", n, 9, docs='{"d1","d2"}', txns="{1,2}", maxval=2), "plain"))
         scheds.append((gen("b", n // 2, 12, docs='{"d1","d2","d3"}', txns="{1,2,3}", maxval=2), "plain"))
         scheds.append((gen("c", n // 3, 9, docs='{"d1","d2"}', txns="{1,2}", maxval=2), "indexed"))
